@@ -229,7 +229,7 @@ Section Store.
     e_write st h (t2rows (evals r)).
 End Store.
 
-Arguments MkHmnt {_}. Arguments MkHmet {_}.
+
 
 (* ====================================================================== *)
 (* programs over named objects: every statement binds the next variable *)
